@@ -246,6 +246,113 @@ theorem supply_delta {s s' : State} {blk : Block} {snd : Addr} {msg : Msg} {out 
     obtain ⟨mk, rfl, _⟩ := execUploadLogo_frame h
     rfl
 
+/-! ## Only a mint raises, only a burn lowers; the history ledger -/
+
+/-- **C01, "only a successful mint raises the supply"**: a successful call after which the supply is higher
+was a `mint`, and the supply rose by exactly its amount.  (That the sender was the stored minter is
+`C13.mint_only_minter`.) -/
+theorem supply_raised_only_by_mint {s s' : State} {blk : Block} {snd : Addr} {msg : Msg} {out : List Out}
+    (h : execute s blk snd msg = .ok (s', out)) (hlt : s.supply < s'.supply) :
+    ∃ to amt, msg = .mint to amt ∧ s'.supply = s.supply + amt := by
+  have hd := supply_delta h
+  cases msg <;> simp only [] at hd
+  case mint to amt => exact ⟨to, amt, rfl, hd.1⟩
+  case burn amt => have := hd.1; omega
+  case burnFrom o amt => have := hd.1; omega
+  all_goals omega
+
+/-- **C01, "only a successful burn lowers the supply"**: a successful call after which the supply is lower was
+a `burn` by the sender or a `burnFrom` through an allowance, and the supply fell by exactly its amount. -/
+theorem supply_lowered_only_by_burn {s s' : State} {blk : Block} {snd : Addr} {msg : Msg} {out : List Out}
+    (h : execute s blk snd msg = .ok (s', out)) (hlt : s'.supply < s.supply) :
+    (∃ amt, msg = .burn amt ∧ s'.supply + amt = s.supply)
+    ∨ (∃ o amt, msg = .burnFrom o amt ∧ s'.supply + amt = s.supply) := by
+  have hd := supply_delta h
+  cases msg <;> simp only [] at hd
+  case mint to amt => have := hd.1; omega
+  case burn amt => exact Or.inl ⟨amt, rfl, hd.1⟩
+  case burnFrom o amt => exact Or.inr ⟨o, amt, rfl, hd.1⟩
+  all_goals omega
+
+/-- Ghost: what one transaction of a history mints (the amount of a *successful* `mint`, else 0). -/
+def mintedAt (s : State) (op : Block × Addr × Msg) : Nat :=
+  match op.2.2 with
+  | .mint _ amt => if (execute s op.1 op.2.1 op.2.2).isOk then amt else 0
+  | _ => 0
+
+/-- Ghost: what one transaction of a history burns (the amount of a *successful* `burn` / `burnFrom`). -/
+def burnedAt (s : State) (op : Block × Addr × Msg) : Nat :=
+  match op.2.2 with
+  | .burn amt => if (execute s op.1 op.2.1 op.2.2).isOk then amt else 0
+  | .burnFrom _ amt => if (execute s op.1 op.2.1 op.2.2).isOk then amt else 0
+  | _ => 0
+
+/-- Ghost: total amount minted by the successful `mint` calls of a history run from `s`. -/
+def minted (s : State) : List (Block × Addr × Msg) → Nat
+  | [] => 0
+  | op :: rest => mintedAt s op + minted (step s op.1 op.2.1 op.2.2) rest
+
+/-- Ghost: total amount burned by the successful `burn` / `burnFrom` calls of a history run from `s`. -/
+def burned (s : State) : List (Block × Addr × Msg) → Nat
+  | [] => 0
+  | op :: rest => burnedAt s op + burned (step s op.1 op.2.1 op.2.2) rest
+
+set_option linter.unusedSimpArgs false in
+/-- One transaction (committed or rolled back) moves the supply by exactly what it minted and burned. -/
+theorem step_ledger (s : State) (op : Block × Addr × Msg) :
+    (step s op.1 op.2.1 op.2.2).supply + burnedAt s op = s.supply + mintedAt s op := by
+  obtain ⟨blk, snd, msg⟩ := op
+  unfold step mintedAt burnedAt
+  cases h : execute s blk snd msg with
+  | error e => cases msg <;> simp [h, Res.isOk]
+  | ok r =>
+    obtain ⟨s', out⟩ := r
+    have hd := supply_delta h
+    cases msg <;> simp only [] at hd <;> simp [h, Res.isOk] <;> omega
+
+/-- **C01, history ledger**: over any history from any state, `supply + burned = initial supply + minted`:
+the supply is moved by the successful mints and burns, by exactly their amounts, and by nothing else
+(transfers, sends, draws, allowance/minter/marketing updates and failed calls contribute nothing). -/
+theorem supply_ledger (s : State) (ops : List (Block × Addr × Msg)) :
+    (run s ops).supply + burned s ops = s.supply + minted s ops := by
+  induction ops generalizing s with
+  | nil => rfl
+  | cons op rest ih =>
+    have h1 := step_ledger s op
+    have h2 := ih (step s op.1 op.2.1 op.2.2)
+    show (run (step s op.1 op.2.1 op.2.2) rest).supply + (burnedAt s op + burned (step s op.1 op.2.1 op.2.2) rest)
+      = s.supply + (mintedAt s op + minted (step s op.1 op.2.1 op.2.2) rest)
+    omega
+
+/-- The ledger for the tokens that exist: after an accepted instantiation and any history,
+`Σ balances + burned = initial Σ balances + minted`. -/
+theorem circulation_ledger {m : InstMsg} {s : State} (h : instantiate m = .ok s) (ops : List (Block × Addr × Msg)) :
+    AMap.sum (run s ops).balances + burned s ops = AMap.sum s.balances + minted s ops := by
+  have h1 := (reach_inv h ops).1
+  have h2 := (instantiate_inv h).1
+  have := supply_ledger s ops
+  omega
+
+/-- A history without a successful mint never raises the supply; one without a successful burn never
+lowers it. -/
+theorem supply_monotone_without {s : State} (ops : List (Block × Addr × Msg)) :
+    (minted s ops = 0 → (run s ops).supply ≤ s.supply) ∧ (burned s ops = 0 → s.supply ≤ (run s ops).supply) := by
+  have := supply_ledger s ops
+  constructor <;> intro h0 <;> omega
+
+/-- Handler level: a `burn` fails only for lack of funds (under the invariant the supply subtraction cannot
+underflow, because the balance is part of the supply). -/
+theorem burn_ok_iff {s : State} {snd : Addr} {amt : Nat} (hi : Inv s) :
+    (∃ r, execBurn s snd amt = .ok r) ↔ amt ≤ bal s snd := by
+  constructor
+  · rintro ⟨r, h⟩
+    simp [execBurn, debit] at h
+    simpa [bal] using h.1
+  · intro hle
+    have hb := AMap.get?_le_sum s.balances snd
+    have hs : amt ≤ s.supply := by rw [hi.1]; unfold bal at hle; omega
+    exact ⟨_, by simp [execBurn, debit]; exact ⟨by simpa [bal] using hle, hs, rfl⟩⟩
+
 /-! ## The unchecked `+` of the credit step cannot panic -/
 
 /-- **C01, bonus**: under the invariant, the `credit` (`balance + amount`, which panics on overflow
@@ -429,5 +536,26 @@ example : Paginate.fetchLoop (fun c => queryAllAccounts (run exState exOps) c (s
 example : ((Paginate.fetchLoop (fun c => queryAllAccounts (run exState exOps) c (some 2)) id none 5).map
       (balanceOf (run exState exOps))).sum = queryTotalSupply (run exState exOps) :=
   listed_sum (m := exInst) rfl exOps (some 2) (by decide) (by decide)
+
+
+/-! ### Non-vacuity of the ledger and the only-mint / only-burn theorems -/
+
+/-- The example history mints 500 and burns 5 (the failing mint by bob counts for nothing):
+125 + 500 = 620 + 5. -/
+example : minted exState exOps = 500 := by rfl
+example : burned exState exOps = 5 := by rfl
+example : (run exState exOps).supply + burned exState exOps = exState.supply + minted exState exOps :=
+  supply_ledger exState exOps
+/-- hypotheses of `supply_raised_only_by_mint` / `supply_lowered_only_by_burn` are satisfiable -/
+example : ∃ s' out, execute exState exBlk "minter" (.mint ⟨true, "dave"⟩ 50) = .ok (s', out) ∧ exState.supply < s'.supply :=
+  ⟨_, _, rfl, by decide⟩
+example : ∃ s' out, execute exState exBlk "bob" (.burn 5) = .ok (s', out) ∧ s'.supply < exState.supply :=
+  ⟨_, _, rfl, by decide⟩
+/-- a burn through an allowance lowers the supply too (second disjunct) -/
+example : ∃ s' out, execute (run exState (exOps.take 3)) exBlk "bob" (.burnFrom ⟨true, "alice"⟩ 30) = .ok (s', out)
+    ∧ s'.supply < (run exState (exOps.take 3)).supply := ⟨_, _, rfl, by decide⟩
+example : (∃ r, execBurn exState "bob" 25 = .ok r) ∧ ¬ (∃ r, execBurn exState "bob" 26 = .ok r) :=
+  ⟨(burn_ok_iff (reach_inv (m := exInst) rfl [])).mpr (by decide),
+   fun h => absurd ((burn_ok_iff (reach_inv (m := exInst) rfl [])).mp h) (by decide)⟩
 
 end CwPlus.Props.C01
